@@ -285,3 +285,17 @@ def opt_datum(v):
         t = t.fields[0] if isinstance(t, Struct) and len(t.fields) == 1 else t
         return (t, d.fields[1])
     return None
+
+
+def exact_norm(v):
+    """Exact f32 identities only: Neg(Neg(x)) = x (sign-bit flip is an involution)."""
+    if isinstance(v, Term):
+        args = tuple(exact_norm(a) for a in v.args)
+        if v.op == "Neg" and isinstance(args[0], Term) and args[0].op == "Neg":
+            return args[0].args[0]
+        return Term(v.op, args, v.ty)
+    if isinstance(v, Struct):
+        return Struct(v.ty, [exact_norm(f) for f in v.fields])
+    if isinstance(v, Enum):
+        return Enum(v.ty, v.variant, v.vname, [exact_norm(f) for f in v.fields])
+    return v
